@@ -63,10 +63,14 @@ pub enum Out {
     N,
     Pg,
     P,
+    /// stale by 2^32 ms + 3 s (an age that looks young again if it is narrowed to 32 bits of milliseconds)
+    StWm,
+    /// stale by 2^32 us + 1 s
+    StWu,
 }
 
-pub const ALL_OUT: [Out; 10] = [Out::S1, Out::S2, Out::U, Out::St, Out::X, Out::Xf, Out::Ng, Out::N, Out::Pg, Out::P];
-pub const NONSYNC_OUT: [Out; 8] = [Out::U, Out::St, Out::X, Out::Xf, Out::Ng, Out::N, Out::Pg, Out::P];
+pub const ALL_OUT: [Out; 12] = [Out::S1, Out::S2, Out::U, Out::St, Out::X, Out::Xf, Out::Ng, Out::N, Out::Pg, Out::P, Out::StWm, Out::StWu];
+pub const NONSYNC_OUT: [Out; 10] = [Out::U, Out::St, Out::X, Out::Xf, Out::Ng, Out::N, Out::Pg, Out::P, Out::StWm, Out::StWu];
 
 impl Out {
     pub fn name(self) -> &'static str {
@@ -81,6 +85,8 @@ impl Out {
             Out::N => "no reply, beyond grace",
             Out::Pg => "PHC read failure, within grace",
             Out::P => "PHC read failure, beyond grace",
+            Out::StWm => "stale report (reference time 2^32 ms + 3 s old)",
+            Out::StWu => "stale report (reference time 2^32 us + 1 s old)",
         }
     }
     pub fn short(self) -> &'static str {
@@ -95,6 +101,8 @@ impl Out {
             Out::N => "N",
             Out::Pg => "Pg",
             Out::P => "P",
+            Out::StWm => "StWm",
+            Out::StWu => "StWu",
         }
     }
     pub fn from_short(s: &str) -> Out {
@@ -104,7 +112,7 @@ impl Out {
     pub fn class(self) -> u32 {
         match self {
             Out::S1 | Out::S2 => 1,
-            Out::U | Out::St | Out::Ng | Out::Pg => 2,
+            Out::U | Out::St | Out::StWm | Out::StWu | Out::Ng | Out::Pg => 2,
             Out::X | Out::Xf | Out::N | Out::P => 0,
         }
     }
@@ -115,6 +123,8 @@ impl Out {
             Out::S2 => Some(t(1, 2 * S, 0.001, 0.03, 0.005)),
             Out::U => Some(t(3, S, 0.0, 1.0, 1.0)),
             Out::St => Some(t(0, 129 * S, 0.007, 0.1, 0.02)),
+            Out::StWm => Some(t(0, (1i128 << 32) * 1_000_000 + 3 * S, 0.007, 0.1, 0.02)),
+            Out::StWu => Some(t(1, (1i128 << 32) * 1_000 + S, 0.007, 0.1, 0.02)),
             Out::X => Some(t(4, S, 0.007, 0.1, 0.02)),
             Out::Xf => Some(t(0, -S, 0.007, 0.1, 0.02)),
             _ => None,
@@ -562,6 +572,10 @@ pub fn run_c10(ctx: &Ctx) -> i32 {
                 let t_floor: i128 = ((d.coef as f64) * 2f64.powi(d.exp2 + 3) * 1e9).floor() as i128;
                 let floor_s: i128 = t_floor.div_euclid(S);
                 let mut ages: Vec<i128> = vec![-1, -S, 0, t_floor - 1, t_floor, t_floor + 1, t_floor + 2, (floor_s + 1) * S, floor_s * S, floor_s * S + 1, 1_000_000 * S];
+                if leap <= 8 || tier == Tier::Thorough {
+                    // ages at which a narrowed / re-scaled age would wrap and look fresh again
+                    ages.extend(crate::gridmc::clientgrid::wrap_ages().into_iter().filter(|a| *a > 0));
+                }
                 ages.sort();
                 ages.dedup();
                 for age in ages {
@@ -630,9 +644,70 @@ pub fn run_c10(ctx: &Ctx) -> i32 {
             samples.extend(sm);
         }
     }
+    // phase 2: the classification must be re-evaluated at every report, also when the report is
+    // bit-identical to the previous one and only time has passed (a cached classification goes stale)
+    let mut p2 = 0u64;
+    for leap in [0u16, 1, 2, 3, 4, 65535] {
+        for iv in &intervals {
+            let ib = encode_float(*iv);
+            let d = decode_float(ib);
+            let t_floor: i128 = ((d.coef as f64) * 2f64.powi(d.exp2 + 3) * 1e9).floor() as i128;
+            let ages: Vec<i128> = vec![-S, 0, (t_floor - 1).max(0), t_floor + S + 1, 1_000_000 * S];
+            for (i1, a1) in ages.iter().enumerate() {
+                for a2 in ages.iter().skip(i1 + 1) {
+                    for with_gap_message in [false, true] {
+                        p2 += 1;
+                        let now1 = R0;
+                        let now2 = R0 + (a2 - a1);
+                        let as_of = libc::timespec { tv_sec: 5000, tv_nsec: 1 };
+                        let t = TrackSpec { ref_id: 0, leap, ref_time_ns: now1 - a1, offset_bits: encode_float(0.001), delay_bits: encode_float(0.01), disp_bits: encode_float(0.01), interval_bits: ib };
+                        let report = || Message::ClockErrorBoundData((tracking_of(&t), 0, as_of));
+                        let mut msgs = vec![Out::S1.message(now1, 0, as_of), report()];
+                        if with_gap_message {
+                            msgs.push(Message::ChronyNotRespondingGracePeriod);
+                        }
+                        msgs.push(report());
+                        let last = msgs.len() - 1;
+                        vclock::arm(VClock { real_ns: now1, mono_ns: 5001 * S, auto_advance_ns: 0, fail_errno: 0, fail_clock: -1 });
+                        let out = std::rc::Rc::new(std::cell::RefCell::new(vec![]));
+                        let o2 = out.clone();
+                        let r = std::panic::catch_unwind(std::panic::AssertUnwindSafe(|| {
+                            pipeline::run_updater(msgs, 1000, move |i, c| {
+                                o2.borrow_mut().push(Rec::from_ceb(c).status);
+                                if i + 1 == last {
+                                    // time passes before the second, identical report is processed
+                                    vclock::set_times(now2, 5001 * S + (now2 - now1));
+                                }
+                            })
+                        }));
+                        vclock::disarm();
+                        let got = out.borrow().clone();
+                        let doc = json!({"check": "C10", "phase": "identical report repeated", "leap_status": leap, "update_interval_s": iv, "ages_ns": [a1.to_string(), a2.to_string()], "outage_message_between": with_gap_message, "published_statuses": got.iter().map(|x| status_name(*x)).collect::<Vec<_>>()});
+                        if r.is_err() || got.len() != last + 1 {
+                            sink.add("C10:repeat:panic-or-count".into(), "the writer loop panicked or skipped a publication".into(), doc);
+                            continue;
+                        }
+                        for (k, age) in [(1usize, *a1), (last, *a2)] {
+                            if let Some(e) = ref_classify(leap, ib, age) {
+                                if got[k] != e {
+                                    sink.add(
+                                        format!("C10:repeat:{}-instead-of-{}", status_name(got[k]), status_name(e)),
+                                        format!("the same report (leap {leap}, interval {iv} s) processed when its reference time is {a1} ns and then {a2} ns old: publication {k} is {} but the report classifies as {} at that age", status_name(got[k]), status_name(e)),
+                                        doc.clone(),
+                                    );
+                                }
+                            }
+                        }
+                    }
+                }
+            }
+        }
+    }
+    n += p2;
     let coverage = cov(vec![
         ("evaluations", json!(n)),
         ("distinct_nontrivial", json!(nt)),
+        ("identical_report_repeated_cases", json!(p2)),
         ("rule", json!("all leap-status values (step given) x update-interval alphabet x reference-time ages at -1 ns, -1 s, 0, 8I-1ns, 8I, 8I+1ns, floor(8I) s, floor(8I)+1 s, 1e6 s x status before (Synchronized / FreeRunning / Unknown, each after a first synchronised report); all distinct; non-trivial = leap status 0..3 or a future reference time")),
         ("samples", json!(samples)),
         ("leap_status_values", json!(leaps.len())),
@@ -774,9 +849,13 @@ pub fn run_c13(ctx: &Ctx) -> i32 {
     }
     let tails = sequences(&alpha, depth - 1);
     let base = ctx.scratch();
-    let items: Vec<(usize, bool)> = (0..alpha.len()).flat_map(|a| [false, true].map(move |c| (a, c))).collect();
+    // every step alphabet entry x PHC configured or not x variant of the report fields that should not matter
+    let aux_list: Vec<u8> = pipeline::AUX_VARIANTS.to_vec();
+    let items: Vec<(usize, bool, u8)> = (0..alpha.len()).flat_map(|a| [false, true].into_iter().flat_map(move |c| pipeline::AUX_VARIANTS.into_iter().map(move |x| (a, c, x)))).collect();
+    let _ = &aux_list;
     let parts = par::map(items.len(), |i| {
-        let (a, phc_cfg) = items[i];
+        let (a, phc_cfg, aux) = items[i];
+        pipeline::set_aux_variant(aux);
         let dir = base.join(format!("c13-{i}"));
         let _ = std::fs::create_dir_all(&dir);
         let mut sink = Sink::new();
@@ -787,7 +866,7 @@ pub fn run_c13(ctx: &Ctx) -> i32 {
             let mut steps = vec![alpha[a]];
             steps.extend(t.iter().cloned());
             n += 1;
-            let doc = |k: usize, got: &Vec<String>, exp: &str| json!({"check": "C13", "phc_configured": phc_cfg, "steps": steps.iter().map(|s| json!({"answer": format!("{:?}", s.ans), "phc_file_readable": s.phc_readable, "gap_ms": s.gap_ms, "reply_latency_ms": s.latency_ms})).collect::<Vec<_>>(), "failing_step": k, "observed": got, "expected": exp});
+            let doc = |k: usize, got: &Vec<String>, exp: &str| json!({"check": "C13", "phc_configured": phc_cfg, "report_field_variant": aux, "steps": steps.iter().map(|s| json!({"answer": format!("{:?}", s.ans), "phc_file_readable": s.phc_readable, "gap_ms": s.gap_ms, "reply_latency_ms": s.latency_ms})).collect::<Vec<_>>(), "failing_step": k, "observed": got, "expected": exp});
             match c13_run(&steps, phc_cfg, &dir) {
                 Ok(res) => {
                     for (k, (got, exp)) in res.iter().enumerate() {
@@ -812,6 +891,7 @@ pub fn run_c13(ctx: &Ctx) -> i32 {
                 Err(e) => sink.add("C13:panic".into(), format!("poller panicked: {e}"), doc(0, &vec![], "")),
             }
         }
+        pipeline::set_aux_variant(0);
         (sink, n, classes, graces)
     });
     let mut sink = Sink::new();
@@ -834,7 +914,7 @@ pub fn run_c13(ctx: &Ctx) -> i32 {
         ("samples", json!([{"steps": [format!("{:?}", alpha[0]), format!("{:?}", alpha[alpha.len() - 1])]}])),
         ("evaluations", json!(n)),
         ("distinct_nontrivial", json!(n)),
-        ("rule", json!("every sequence of the stated depth of (answer kind x PHC file state x gap since the previous poll x reply latency) x PHC configured or not, through the real polling loop with the real ClockErrorBoundPoller under virtual time; all distinct")),
+        ("rule", json!("every sequence of the stated depth of (answer kind x PHC file state x gap since the previous poll x reply latency) x PHC configured or not x 4 variants of the report fields no property gives a meaning to (stratum 0/1/2/15, source address, last/RMS offset, frequency, skew), through the real polling loop with the real ClockErrorBoundPoller under virtual time; all distinct")),
         ("depth", json!(depth)),
         ("step_alphabet_size", json!(alpha.len())),
         ("message_classes_observed", json!(classes)),
@@ -910,7 +990,13 @@ pub fn run_c12(ctx: &Ctx) -> i32 {
     w.write(&rec.to_ceb());
     let mut client = ClockBoundClient::new_with_path(path.to_str().unwrap()).expect("client");
     for d in &deltas {
-        for age in [0i128, 1, S, 4 * S] {
+        // record ages at the first clock read: ordinary ones, and ones just before as-of so that the clock
+        // crosses the causality window *during* the call (a retry path, if there is one, is then taken)
+        let dd = *d as i128;
+        let mut start_ages: Vec<i128> = vec![0, 1, S, 4 * S, -999, -1001, -1001 - dd, -1001 - 2 * dd, -1000 - dd / 2, -3 * dd, -2 * dd - 1, -dd - 1];
+        start_ages.sort();
+        start_ages.dedup();
+        for age in start_ages {
             for route in ["record", "client"] {
                 n += 1;
                 let (real0, mono0) = (R0 + 123, 5000 * S + age);
@@ -923,29 +1009,47 @@ pub fn run_c12(ctx: &Ctx) -> i32 {
                 };
                 let log = vclock::log_take();
                 vclock::disarm();
-                let doc = json!({"check": "C12", "side": "client", "route": route, "advance_per_clock_read_ns": d, "age_ns": age.to_string()});
-                let reads: Vec<&(i32, i128)> = log.iter().filter(|e| e.0 != -100).collect();
-                let ri = reads.iter().position(|e| e.0 == libc::CLOCK_REALTIME || e.0 == libc::CLOCK_REALTIME_COARSE);
-                let mi = reads.iter().position(|e| !(e.0 == libc::CLOCK_REALTIME || e.0 == libc::CLOCK_REALTIME_COARSE));
-                match (ri, mi, r) {
-                    (Some(ri), Some(mi), Ok((earliest, latest))) => {
-                        if mi < ri {
-                            sink.add("C12:client-reads-monotonic-first".into(), format!("clock read order {:?}: the monotonic clock is read before the realtime clock", reads), doc.clone());
-                        }
-                        let real_read = reads[ri].1;
-                        let mono_read = reads.iter().filter(|e| !(e.0 == libc::CLOCK_REALTIME || e.0 == libc::CLOCK_REALTIME_COARSE)).map(|e| e.1).max().unwrap();
+                let doc = json!({"check": "C12", "side": "client", "route": route, "advance_per_clock_read_ns": d, "age_at_first_read_ns": age.to_string(), "clock_read_log": log.iter().map(|e| json!([e.0, e.1.to_string()])).collect::<Vec<_>>()});
+                let is_real = |c: i32| c == libc::CLOCK_REALTIME || c == libc::CLOCK_REALTIME_COARSE;
+                let reads: Vec<(i32, i128)> = log.iter().filter(|e| e.0 != -100).cloned().collect();
+                match r {
+                    Ok((earliest, latest)) => {
                         let h = (latest - earliest) / 2;
                         let centre = earliest + h;
-                        let need = rec.bound as i128 + (rec.drift as i128 * (mono_read - ts_ns(rec.as_of_s, rec.as_of_ns))).div_euclid(S);
-                        if h < need - 1 {
-                            sink.add("C12:client-width-uses-earlier-reading".into(), format!("half-width {h} ns is below bound + drift x (later monotonic reading - as-of) = {need} ns: a delay between the two reads shrank the interval"), doc.clone());
+                        // the realtime reading the interval is centred on, and the monotonic reading taken after it
+                        let used_real = reads.iter().rposition(|e| is_real(e.0) && e.1 == centre);
+                        match used_real {
+                            None => sink.add("C12:client-centre-not-the-realtime-reading".into(), format!("interval centred on {centre}, which is no realtime reading of the call (reads {:?})", reads), doc.clone()),
+                            Some(i) => match reads.iter().skip(i + 1).find(|e| !is_real(e.0)) {
+                                None => {
+                                    if dd > 0 || !reads.iter().take(i).all(|e| is_real(e.0)) || reads.len() < 2 {
+                                        sink.add("C12:client-reads-monotonic-first".into(), format!("the interval is centred on the realtime reading number {i} of the call, but no monotonic reading follows it (read order {:?}): a delay between the two reads shrinks the interval", reads.iter().map(|e| e.0).collect::<Vec<_>>()), doc.clone());
+                                    }
+                                }
+                                Some(m) => {
+                                    let need = rec.bound as i128 + (rec.drift as i128 * (m.1 - ts_ns(rec.as_of_s, rec.as_of_ns)).max(0)).div_euclid(S);
+                                    if h < need - 1 {
+                                        sink.add("C12:client-width-uses-earlier-reading".into(), format!("half-width {h} ns is below bound + drift x (monotonic reading taken after the realtime one - as-of) = {need} ns"), doc.clone());
+                                    }
+                                }
+                            },
                         }
-                        if centre != real_read {
-                            sink.add("C12:client-centre-not-the-realtime-reading".into(), format!("interval centred on {centre}, the realtime reading was {real_read}"), doc.clone());
+                        if dd == 0 {
+                            let ri = reads.iter().position(|e| is_real(e.0));
+                            let mi = reads.iter().position(|e| !is_real(e.0));
+                            if let (Some(ri), Some(mi)) = (ri, mi) {
+                                if mi < ri {
+                                    sink.add("C12:client-reads-monotonic-first".into(), format!("clock read order {:?}: the monotonic clock is read before the realtime clock", reads.iter().map(|e| e.0).collect::<Vec<_>>()), doc.clone());
+                                }
+                            }
                         }
                     }
-                    (_, _, Err(e)) => sink.add("C12:client-error".into(), format!("now() failed: {e}"), doc.clone()),
-                    _ => sink.add("C12:client-clock-reads-missing".into(), format!("read log {:?}", reads), doc.clone()),
+                    Err(e) => {
+                        // an error is only legitimate for a reading that precedes as-of by the blur or more
+                        if reads.iter().filter(|e| !is_real(e.0)).all(|m| m.1 > ts_ns(rec.as_of_s, rec.as_of_ns) - 1000) {
+                            sink.add("C12:client-error".into(), format!("now() failed ({e}) although no monotonic reading precedes as-of by the blur"), doc.clone());
+                        }
+                    }
                 }
                 if samples.len() < 4 {
                     samples.push(json!({"side": "client", "route": route, "advance_per_clock_read_ns": d, "clock_read_log": log.iter().map(|e| json!([e.0, e.1.to_string()])).collect::<Vec<_>>()}));
